@@ -13,6 +13,7 @@ import (
 	"path/filepath"
 	"runtime"
 	"runtime/debug"
+	"strings"
 	"syscall"
 	"time"
 
@@ -42,7 +43,7 @@ func (c15) Meta() fw.Meta {
 			"allocation is measured as the TotalAlloc delta around a call made from the only running harness goroutine",
 			"a >30 s call on a <= 64 KiB input counts as a hang",
 		},
-		Obligations: []string{"decoder_calls", "decoder_errors", "decoder_accepts", "extreme_count_inputs", "open_calls", "open_rejected", "open_accepted_damaged", "handle_ops_on_damaged", "handle_op_errors", "remote_client_calls", "remote_client_errors", "alloc_checked"},
+		Obligations: []string{"decoder_calls", "decoder_errors", "decoder_accepts", "extreme_count_inputs", "open_calls", "open_rejected", "open_accepted_damaged", "handle_ops_on_damaged", "handle_op_errors", "remote_client_calls", "remote_client_errors", "alloc_checked", "remote_list_client_calls", "second_open_after_rejection"},
 		Workers:     8,
 	}
 }
@@ -359,6 +360,64 @@ func (c15) Run(c *fw.Ctx) {
 				c.Violationf("valid-encoding-rejected:"+name, fw.J{"input": di, "err": err.Error()}, "%s.TakeFrom rejected a valid encoding: %v", name, err)
 			}
 
+		case j%3 == 1 && j%4 == 1: // ---- (b') the text listings of /files and /items, malformed in every way a body can be
+			var parts []string
+			for k, n := 0, r.Intn(6); k < n; k++ {
+				switch r.Intn(6) {
+				case 0:
+					parts = append(parts, "")
+				case 1:
+					parts = append(parts, strings.Repeat("x", r.Intn(70000)))
+				case 2:
+					b := make([]byte, r.Intn(40))
+					r.Read(b)
+					parts = append(parts, string(b))
+				default:
+					parts = append(parts, fmt.Sprintf("dir%d/file %d.wsp", k, r.Intn(100)))
+				}
+			}
+			sep := []string{"\n", "\r\n", "\n\n", "\x00"}[r.Intn(4)]
+			body = []byte(strings.Join(parts, sep))
+			how := "list-without-final-newline"
+			if r.Intn(3) == 0 {
+				body = append(body, '\n')
+				how = "list-with-final-newline"
+			}
+			if len(parts) == 0 {
+				how = "empty-list"
+			}
+			name := "client:files"
+			items := r.Intn(2) == 0
+			if items {
+				name = "client:items"
+			}
+			di := describeInput(name, how, body)
+			var got []string
+			var err error
+			pan, stack, alloc, hung := guardedAlloc(uint64(1<<20+16*len(body)), func() {
+				if items {
+					got, err = wcmd.VerifGlobItems(srv.URL, "x*")
+				} else {
+					got, err = wcmd.VerifGlobFiles(srv.URL, "x*/*.wsp")
+				}
+			})
+			c.Count("remote_list_client_calls", 1)
+			if hung {
+				c.Violationf("hang:"+name, di, "the %s client did not return within 30 s on a %d-byte listing (%s)", name, len(body), how)
+				return
+			}
+			if pan != nil {
+				c.Violationf("panic:"+name+":"+fw.PanicSite(stack), fw.J{"input": di, "panic": fmt.Sprint(pan), "stack": truncStr(stack, 3000)}, "%s client panicked on a %d-byte listing (%s): %v", name, len(body), how, pan)
+				return
+			}
+			c.Count("alloc_checked", 1)
+			if limit := uint64(1<<20 + 16*len(body)); alloc > limit {
+				c.Violationf("alloc:"+name, fw.J{"input": di, "alloc": alloc, "limit": limit, "names": len(got)}, "%s client allocated %d bytes for a %d-byte listing", name, alloc, len(body))
+				return
+			}
+			_ = err
+			c.Nontrivial(name, di.Hex, len(body))
+
 		case j%3 == 1: // ---- (b) client-side framing loops through real HTTP
 			l := genLayout(r, layoutOpts{maxPoints0: 200})
 			body = model.EncodeHeader(l)
@@ -548,6 +607,15 @@ func c15File(c *fw.Ctx, r *rand.Rand, j int) {
 
 	var h *wt.Whisper
 	var oerr error
+	oldGC := debug.SetGCPercent(-1) // a finalizer must not tidy up behind a rejected Open before the second one is tried
+	gcRestored := false
+	restoreGC := func() {
+		if !gcRestored {
+			debug.SetGCPercent(oldGC)
+			gcRestored = true
+		}
+	}
+	defer restoreGC()
 	pan, stack, alloc, hung := guardedAlloc(fileLimit, func() {
 		if h != nil {
 			h.Close()
@@ -570,9 +638,25 @@ func c15File(c *fw.Ctx, r *rand.Rand, j int) {
 	}
 	if oerr != nil {
 		c.Count("open_rejected", 1)
+		// rejecting a file must not leave anything behind that makes the next Open of it wait
+		done := make(chan struct{})
+		go func() {
+			if h2, err := wt.Open(path); err == nil {
+				h2.Close()
+			}
+			close(done)
+		}()
+		select {
+		case <-done:
+			c.Count("second_open_after_rejection", 1)
+		case <-time.After(30 * time.Second):
+			c.Violationf("hang:open-after-rejected-open", di, "Open rejected the file (%s: %v); a second Open of the same file did not return within 30 s", how, oerr)
+			return
+		}
 		c.Nontrivial("file", how, di.Hex, len(img))
 		return
 	}
+	restoreGC()
 	defer h.Close()
 	c.Count("open_accepted_damaged", 1)
 	c.Nontrivial("file-open", how, di.Hex, len(img))
